@@ -25,6 +25,12 @@ class LoggedMachine(RuleBasedStateMachine):
         except Violation as v:
             type(self)._holder.setdefault("first", ([list(x) for x in self.log], v))
             raise
+        except Exception as e:
+            import traceback
+            v = Violation("the check could not interpret the behaviour of the code under test: %s: %s"
+                          % (type(e).__name__, str(e)[:300]), traceback=traceback.format_exc(limit=-8))
+            type(self)._holder.setdefault("first", ([list(x) for x in self.log], v))
+            raise v from e
 
     def teardown(self):
         try:
